@@ -98,6 +98,18 @@ def other_data(ds, added):
     return out
 
 
+def add_memory_vars(ds, d):
+    """variables created in memory after opening (no on-disk encoding yet): 64-bit identifiers beyond the 32-bit range
+    (cannot hold a missing value: cropped, never altered) and a single-precision field"""
+    fdims = list(d.spec['kinds']['face'])
+    shape = [ds.sizes[x] for x in fdims]
+    n = int(numpy.prod(shape))
+    ds['mem_cell_id'] = xarray.DataArray((numpy.arange(n, dtype='i8') * 1000003 + 1_700_000_000_000).reshape(shape), dims=fdims,
+                                         attrs={'long_name': 'global cell identifier'})
+    ds['mem_f4'] = xarray.DataArray((numpy.arange(n, dtype='f4') / 8 + 3).reshape(shape), dims=fdims)
+    return ds
+
+
 def raw_var(path, name):
     with netCDF4.Dataset(path) as nc:
         nc.set_auto_maskandscale(False)
@@ -137,6 +149,8 @@ def flows(ctx, n_ds, quick):
             warnings.simplefilter('ignore')
             ds = emsarray.open_dataset(src, **open_kw)
             ds.load()
+            if n % 2 == 0:
+                ds = add_memory_vars(ds, d)
             r = attempt(lambda: pm.impl_polygons(ds.ems))
         if r[0] != 'ok':
             ctx.report('property', f'polygons of a dataset read back from netCDF failed: {r[1]}', {'dataset': d.spec['label']})
@@ -181,6 +195,8 @@ def flows(ctx, n_ds, quick):
                     write(second, spath, int_conn)
                     target = emsarray.open_dataset(spath, **open_kw)
                     target.load()
+                    if n % 2 == 0:
+                        target = add_memory_vars(target, d)
                 f.mask, f.target = mask, target
                 work = tempfile.mkdtemp(prefix='work_', dir=tmp)
                 try:
